@@ -36,12 +36,13 @@ fn wrap(c: usize, s: &str, t: &str, style: ScalarStyle, r: &mut Rng) -> (String,
 
 fn ctx_for(c: usize) -> FlowCtx {
     match c {
-        0 | 1 => FlowCtx { in_flow: false, single_line: false, cont_min: 0, top_level: true },
-        2 => FlowCtx { in_flow: false, single_line: true, cont_min: 1, top_level: false },
-        3 | 4 => FlowCtx { in_flow: false, single_line: false, cont_min: 1, top_level: false },
-        5 | 7 => FlowCtx { in_flow: true, single_line: false, cont_min: 0, top_level: true },
-        6 => FlowCtx { in_flow: true, single_line: true, cont_min: 0, top_level: true },
-        _ => FlowCtx { in_flow: false, single_line: false, cont_min: 5, top_level: false },
+        0 => FlowCtx { in_flow: false, single_line: false, cont_min: 0, top_level: true, first_col0: false },
+        1 => FlowCtx { in_flow: false, single_line: false, cont_min: 0, top_level: true, first_col0: true },
+        2 => FlowCtx { in_flow: false, single_line: true, cont_min: 1, top_level: false, first_col0: true },
+        3 | 4 => FlowCtx { in_flow: false, single_line: false, cont_min: 1, top_level: false, first_col0: false },
+        5 | 7 => FlowCtx { in_flow: true, single_line: false, cont_min: 0, top_level: true, first_col0: false },
+        6 => FlowCtx { in_flow: true, single_line: true, cont_min: 0, top_level: true, first_col0: false },
+        _ => FlowCtx { in_flow: false, single_line: false, cont_min: 5, top_level: false, first_col0: false },
     }
 }
 
@@ -208,6 +209,23 @@ pub fn run_c04(tier: &str, seed: u64, shard: u64, nshards: u64, scale: f64, stat
             let c = r.below(CONTEXTS.len());
             c04_one(&t, si, c, &mut r, stats);
             stats.cnt("long_word_targets", 1);
+            continue;
+        }
+        if r.chance(1, 30) {
+            // lines that look like document markers: text when indented (continuation lines of a
+            // nested scalar), markers only at column 0
+            let n = r.range(1, 4);
+            let mut t = String::new();
+            for j in 0..n {
+                if j > 0 {
+                    t.push_str(if r.chance(1, 4) { "\n\n" } else { "\n" });
+                }
+                t.push_str(r.pick(&["---", "...", "--- b", "... c", "a", "x y", "---x", "....", "-- -"]));
+            }
+            let si = r.below(3);
+            let c = r.below(CONTEXTS.len());
+            c04_one(&t, si, c, &mut r, stats);
+            stats.cnt("marker_lookalike_targets", 1);
             continue;
         }
         let len = match r.below(10) {
